@@ -76,6 +76,14 @@ def r1(ctx, cfg):
             ma = P.call_args(f, mk[0][1], mk[0][0])
             ok = ok and is_param(ma[1], "self") and peel(ma[0])[0] == "call" and peel(ma[0])[1] == "api::MockApiBech::new"
         ctx.ob(R, key, "variant-and-prefix", ok, "%s builds %s" % (key, d), fn=f, sample=d)
+        # ... and that is the only thing it ever returns (no shortcut through the other codec for some prefix)
+        rets = [peel(x) for x in alts(peel(P.ret(f)))]
+        sibling = key.rsplit("::", 1)[-1] + "_with_prefix"      # (`self.into_bech32_with_prefix(..)`, whether resolved to the impl or named through the trait)
+        def made(r):
+            return r[0] == "call" and (r[1] == "api::MockApiBech::addr_make" or (not pfx and r[1].rsplit("::", 1)[-1] == sibling and "::IntoBech32" in r[1] + key))
+        okr = bool(rets) and all(made(r) for r in rets)
+        ctx.ob(R, key, "every-result-made-by-the-matching-api", okr, "%s can also return %s" % (key, [fmt(r)[:60] for r in rets if not made(r)]),
+               fn=f, sample="addr_make of the matching MockApiBech only")
     c = F.consts.get("addresses::DEFAULT_PREFIX")
     ctx.ob(R, "addresses::DEFAULT_PREFIX", "default-prefix", bool(c) and c.get("value") == "cosmwasm", "DEFAULT_PREFIX is %r" % (c or {}).get("value"), sample="'cosmwasm'")
     key = "api::MockApiBech::new"
